@@ -1257,13 +1257,18 @@ impl<'l> CelCompiler<'l> {
             Some(TokenWithLoc {
                 token: Token::IntLit(val),
                 loc,
-            }) => Ok((
-                CompiledProg::with_const((val as i64).into()),
-                AstNode::new(
-                    Primary::Literal(LiteralsAndKeywords::IntegerLit(val as i64)),
-                    loc,
-                ),
-            )),
+            }) => match i64::try_from(val) {
+                Ok(val) => Ok((
+                    CompiledProg::with_const(val.into()),
+                    AstNode::new(
+                        Primary::Literal(LiteralsAndKeywords::IntegerLit(val)),
+                        loc,
+                    ),
+                )),
+                Err(_) => Err(SyntaxError::from_location(loc.start())
+                    .with_message(format!("Integer literal {} is out of range", val))
+                    .into()),
+            },
             Some(TokenWithLoc {
                 token: Token::FloatLit(val),
                 loc,
